@@ -3,7 +3,8 @@
 // no contract here depends on WHICH error a diagnostic carries, only on it being one.
 #[verifier::external_body] pub struct Error { _p: () }
 #[verifier::external_body] pub struct Span { _p: () }
-#[verifier::external_body] pub struct Note { _p: () }
+// derived Clone of Span (slice_file.rs): a copy equal to the original (assumed)
+impl Clone for Span { #[verifier::external_body] fn clone(&self) -> (r: Self) ensures r == *self { unimplemented!() } }
 // Opaque compiler state the gate does not look into.
 #[verifier::external_body] pub struct Ast { _p: () }
 #[verifier::external_body] pub struct SliceFile { _p: () }
@@ -73,3 +74,39 @@ pub fn compile_files(state: &mut CompilationState, options: &SliceOptions)
     requires !has_error_kind(old(state).diagnostics.0@),   /*@cl C07.compile.gate|permission*/
     ensures all_ok(old(state).diagnostics.0@) ==> all_ok(final(state).diagnostics.0@),
 { unimplemented!() }
+
+// ---- into_updated (C13): the two nested helper fns and the lookups, as assumed contracts ------------
+pub trait Entity {}
+/// nested fn `is_lint_allowed_by(identifiers, lint)`: `identifiers.any(|id| id == "All" || id == lint.code())`
+/// ASSUMED to compute exactly names_allow over the remaining identifiers.
+#[verifier::external_body]
+pub fn is_lint_allowed_by<'b>(identifiers: core::slice::Iter<'b, String>, lint: &Lint) -> (r: bool)
+    // stated for every owned sequence the remaining `&String` items point at (specs/diag_sem.rs
+    // lemma_names_refs shows the two formulations agree)
+    ensures forall|ids: Seq<String>| ids.len() == identifiers.remaining().len()
+        && (forall|i: int| 0 <= i < ids.len() ==> *#[trigger] identifiers.remaining()[i] == ids[i])
+        ==> r == #[trigger] names_allow(ids, *lint),
+{ unimplemented!() }
+/// nested fn `is_lint_allowed_by_attributes(attributable, lint)`: all_attributes() + downcast::<Allow>()
+/// + is_lint_allowed_by per attribute. ASSUMED (uninterpreted attrs_allow).
+#[verifier::external_body]
+pub fn is_lint_allowed_by_attributes<T: ?Sized>(attributable: &T, lint: &Lint) -> (r: bool)
+    ensures r == attrs_allow::<T>(attributable, *lint),
+{ unimplemented!() }
+/// `files.iter().find(|f| f.relative_path == span.file).expect("no file")` (closure). ASSUMED total:
+/// every span carried by a diagnostic names a file of the compilation (spans are made by the lexers
+/// from the file being parsed).
+#[verifier::external_body]
+pub fn shim_find_file<'a>(files: &'a [SliceFile], span: &Span) -> (r: &'a SliceFile)
+    ensures *r == file_of(files@, *span),
+{ unimplemented!() }
+pub struct OpaqueLookupError { _p: () }
+impl Ast {
+    /// Ast::find_element::<dyn Entity>(scope) (ast/mod.rs; the lookup itself is C03's unit).
+    #[verifier::external_body]
+    pub fn find_element<'a, T: ?Sized>(&'a self, identifier: &str) -> (r: core::result::Result<&'a dyn Entity, OpaqueLookupError>)
+        ensures r is Ok <==> entity_at(self, identifier@) is Some, r is Ok ==> r->Ok_0 == entity_at(self, identifier@)->0,
+    { unimplemented!() }
+}
+// `T::to_owned()` of the blanket `impl<T: Clone> ToOwned for T` (std): no postcondition assumed.
+pub assume_specification<T: Clone>[<T as std::borrow::ToOwned>::to_owned](_0: &T) -> (r: T);
